@@ -467,6 +467,141 @@ func init() {
 		}
 		fmt.Fprintf(&sb, "def exitCodeNoData : Nat := %d\ndef exitCodeInvalidUsage : Nat := %d\n\n", consts["ExitCodeNoData"], consts["ExitCodeInvalidUsage"])
 
+		// ---- the flags every aggregating command declares: (kind, name, aliases, default as the source spells it);
+		// shared flag variables (helpers.CSVFlag …) and helper calls appear with kind "shared" and their source text
+		{
+			var rows []string
+			for _, cm := range c03Cmds {
+				var flags []string
+				if cf := c.Func(cm.file, cm.cmdFn); cf != nil {
+					ast.Inspect(cf, func(n ast.Node) bool {
+						kv, ok := n.(*ast.KeyValueExpr)
+						if !ok {
+							return true
+						}
+						if id, ok := kv.Key.(*ast.Ident); !ok || id.Name != "Flags" {
+							return true
+						}
+						cl, ok := kv.Value.(*ast.CompositeLit)
+						if !ok {
+							return true
+						}
+						for _, el := range cl.Elts {
+							src := strings.Join(strings.Fields(c.Print(el)), " ")
+							ue, ok := el.(*ast.UnaryExpr)
+							var lit *ast.CompositeLit
+							if ok {
+								lit, _ = ue.X.(*ast.CompositeLit)
+							}
+							if lit == nil {
+								flags = append(flags, fmt.Sprintf("(\"shared\", %s, [], \"\")", leanStr(src)))
+								continue
+							}
+							kind := strings.TrimPrefix(c.Print(lit.Type), "cli.")
+							name, dflt := "", ""
+							var aliases []string
+							for _, f := range lit.Elts {
+								fkv, ok := f.(*ast.KeyValueExpr)
+								if !ok {
+									continue
+								}
+								k, _ := fkv.Key.(*ast.Ident)
+								if k == nil {
+									continue
+								}
+								switch k.Name {
+								case "Name":
+									name = strings.Trim(c.Print(fkv.Value), "\"")
+								case "Value":
+									dflt = strings.Join(strings.Fields(c.Print(fkv.Value)), " ")
+								case "Aliases":
+									if al, ok := fkv.Value.(*ast.CompositeLit); ok {
+										for _, a := range al.Elts {
+											aliases = append(aliases, leanStr(strings.Trim(c.Print(a), "\"")))
+										}
+									}
+								}
+							}
+							flags = append(flags, fmt.Sprintf("(%s, %s, [%s], %s)", leanStr(kind), leanStr(name), strings.Join(aliases, ", "), leanStr(dflt)))
+						}
+						return false
+					})
+				}
+				rows = append(rows, fmt.Sprintf("(%s, [\n    %s])", leanStr(cm.name), strings.Join(flags, ",\n    ")))
+			}
+			fmt.Fprintf(&sb, "/-- the flags of every aggregating command: `(kind, name, aliases, default as spelled in the source)`; shared flag\nvariables and helper calls have kind `shared` and their source text as name -/\ndef commandFlags : List (String × List (String × String × List String × String)) := [\n  %s]\n\n", strings.Join(rows, ",\n  "))
+		}
+		// ---- how every command reads its flags: `(variable, accessor, flag)` of the leading `var ( … = c.Xxx("flag") )` block
+		{
+			var rows []string
+			for _, cm := range c03Cmds {
+				var reads []string
+				if fd := c.Func(cm.file, cm.fn); fd != nil && fd.Body != nil {
+					for _, st := range fd.Body.List {
+						ds, ok := st.(*ast.DeclStmt)
+						if !ok {
+							continue
+						}
+						gd, ok := ds.Decl.(*ast.GenDecl)
+						if !ok {
+							continue
+						}
+						for _, sp := range gd.Specs {
+							vs, ok := sp.(*ast.ValueSpec)
+							if !ok || len(vs.Names) != 1 || len(vs.Values) != 1 {
+								continue
+							}
+							reads = append(reads, fmt.Sprintf("(%s, %s)", leanStr(vs.Names[0].Name), leanStr(strings.Join(strings.Fields(c.Print(vs.Values[0])), " "))))
+						}
+					}
+				}
+				rows = append(rows, fmt.Sprintf("(%s, [%s])", leanStr(cm.name), strings.Join(reads, ", ")))
+			}
+			fmt.Fprintf(&sb, "/-- the leading `var ( … )` block of every command function: `(variable, initialiser as spelled in the source)` -/\ndef commandFlagReads : List (String × List (String × String)) := [\n  %s]\n\n", strings.Join(rows, ",\n  "))
+		}
+		// ---- the trim step of spark's render callback and helpers.SortsByValue
+		{
+			guard, body := "<missing>", []string{}
+			if fd := c.Func("cmd/spark.go", "sparkFunction"); fd != nil {
+				ast.Inspect(fd, func(n ast.Node) bool {
+					call, ok := n.(*ast.CallExpr)
+					if !ok {
+						return true
+					}
+					if p, nm, ok := c03Sel(call.Fun); !ok || p != "helpers" || nm != "RunAggregationLoop" || len(call.Args) != 3 {
+						return true
+					}
+					fl, ok := call.Args[2].(*ast.FuncLit)
+					if !ok {
+						return true
+					}
+					for _, st := range fl.Body.List {
+						if is, ok := st.(*ast.IfStmt); ok {
+							guard = strings.Join(strings.Fields(c.Print(is.Cond)), " ")
+							for _, l := range strings.Split(c.Print(is.Body), "\n") {
+								if t := strings.Join(strings.Fields(l), " "); t != "" {
+									body = append(body, leanStr(t))
+								}
+							}
+							break
+						}
+					}
+					return false
+				})
+			}
+			sbv := "<missing>"
+			if fd := c.Func("cmd/helpers/sorting.go", "SortsByValue"); fd != nil && fd.Body != nil {
+				var ls []string
+				for _, l := range strings.Split(c.Print(fd.Body), "\n") {
+					if t := strings.Join(strings.Fields(l), " "); t != "" {
+						ls = append(ls, t)
+					}
+				}
+				sbv = strings.Join(ls, " ")
+			}
+			fmt.Fprintf(&sb, "/-- cmd/spark.go, render callback: the guard of the trim step and its body, line by line -/\ndef sparkTrimGuard : String := %s\ndef sparkTrimBody : List String := [\n  %s]\n/-- the body of helpers.SortsByValue -/\ndef sortsByValueSrc : String := %s\n\n", leanStr(guard), strings.Join(body, ",\n  "), leanStr(sbv))
+		}
+
 		for _, fn := range [][2]string{
 			{"cmd/reduce.go", "parseKeyValInitial"}, {"cmd/expressions.go", "parseKeyValue"},
 			{"cmd/analyze.go", "writeAggrOutput"}, {"cmd/analyze.go", "parseStringSet"},
